@@ -59,6 +59,8 @@ func init() {
 			signer = w.wallet(op.W + 2)
 		case "wrongmsg":
 			msgText = "vauth "
+		case "acc_long":
+			signer = w.wallet(op.W) // the submitter proves its own key ...
 		}
 		sig, err := ethcrypto.Sign(ethcrypto.Keccak256([]byte(msgText)), signer.ECDSA)
 		if err != nil {
@@ -85,6 +87,8 @@ func init() {
 		switch op.Note {
 		case "acc_upper": // the other valid spelling of the same bech32 address
 			account = strings.ToUpper(account)
+		case "acc_long": // ... for an "address" of 40 bytes: the target's 20 bytes followed by its own
+			account = sdk.AccAddress(append(append([]byte{}, acc.Addr.Bytes()...), w.wallet(op.W).Addr.Bytes()...)).String()
 		case "acc_mixed": // invalid spelling
 			account = strings.ToUpper(account[:len(account)/2]) + account[len(account)/2:]
 		}
